@@ -272,7 +272,7 @@ PROPS = {
                         "mutated documents keep their original signature (JSON-LD and JWT proofs then fail): code behind a successful signature check is reached only for DAG transactions and DID documents, which the workload signs itself"],
         "probes_expected": ["mutated-exchange-rejected", "mutated-exchange-tolerated", "well-formed-transaction-with-mutated-document-admitted"],
         "crash_is_violation": True,
-        "env": {"VERIF_RUN_WALL_S": "180"},
+        "env": {"VERIF_RUN_WALL_S": "90"},
         "quick": {"budget_s": 90, "chunk": 10, "chunk_timeout_s": 600},
         "thorough": {"budget_s": 1200, "chunk": 10, "minimise_s": 120, "chunk_timeout_s": 900},
     },
